@@ -536,7 +536,13 @@ func valEqLoose(a, b Val) string {
 		return b.A[1]
 	}
 	if a.K == KBytes && b.K == KBytes {
-		// Go only allows comparison of a slice with nil
+		// Go only allows comparison of a slice with nil: the result is the other side's nil flag
+		if b.A[1] == "true" {
+			return a.A[1]
+		}
+		if a.A[1] == "true" {
+			return b.A[1]
+		}
 		return sAnd(sEq(a.A[0], b.A[0]), sEq(a.A[1], b.A[1]))
 	}
 	return valEq(a, b)
